@@ -186,7 +186,7 @@ theorem lookup_setKey {β : Type} (d : List (String × β)) (k k' : String) (v :
       by_cases hpk : pk = k
       · subst hpk
         by_cases hk' : k' = pk
-        · subst hk'; simp [List.lookup]
+        · subst hk'; simp
         · have : (k' == pk) = false := by simpa using hk'
           simp only [List.map_cons, beq_self_eq_true, ↓reduceIte, List.lookup, this, hk']
           by_cases hany' : d.any (·.1 == pk) = true
@@ -218,7 +218,7 @@ theorem lookup_setKey {β : Type} (d : List (String × β)) (k k' : String) (v :
     induction d with
     | nil =>
       by_cases hk' : k' = k
-      · subst hk'; simp [List.lookup]
+      · subst hk'; simp
       · have : (k' == k) = false := by simpa using hk'
         simp [List.lookup, this, hk']
     | cons p d ih =>
@@ -303,6 +303,13 @@ theorem own_replace (o : Obj) (n : Parsed) : OwnLattice (replace o n) := by
   obtain ⟨b, _, rfl⟩ := ha
   exact congrArg latIdOf (getattr_congr_dict _ _ rfl "_lattice")
 
+theorem replace_atoms (o : Obj) (n : Parsed) :
+    (replace o n).atoms = n.atoms.map (fun a => { a with lat := latIdOf (getattr (replace o n) "_lattice") }) := by
+  simp only [replace]
+  apply List.map_congr_left
+  intro a _
+  exact congrArg (fun l => ({ a with lat := latIdOf l } : Atom)) (getattr_congr_dict _ _ rfl "_lattice")
+
 theorem own_setKey (o : Obj) (k : String) (v : Val) (hk : k ≠ "_lattice") (h : OwnLattice o) :
     OwnLattice { o with dict := setKey o.dict k v } := by
   intro a ha
@@ -321,8 +328,8 @@ theorem own_init0 (fresh : Nat) (o : Obj) (h : OwnLattice o) : OwnLattice (init0
     simp only [if_true] at this
     have hg : getattr (setLattice o (.lat fresh defaultLatticeValue)) "_lattice"
         = some (.lat fresh defaultLatticeValue) := by
-      unfold setLattice
-      rw [getattr_congr_dict _ { o with dict := setKey o.dict "_lattice" (.lat fresh defaultLatticeValue) } rfl, this]
+      rw [← this]
+      exact getattr_congr_dict _ _ rfl "_lattice"
     rw [hg]
   · exact h
 
@@ -384,5 +391,33 @@ theorem same_postStep (cls : Cls) (sg : Option String) (ra rb : ReadOut) (he : r
     · exact ⟨rfl, same_setKey _ _ "pdffit" _ h⟩
     · exact ⟨rfl, h⟩
   · exact ⟨he, h⟩
+
+/-! ## when the post-step is the identity -/
+
+theorem postStep_base (sg : Option String) (r : ReadOut) : postStep .base sg r = r := by
+  unfold postStep; rfl
+
+theorem postStep_nosg (cls : Cls) (r : ReadOut) : postStep cls none r = r := by
+  unfold postStep
+  cases cls <;> cases r.err <;> rfl
+
+theorem postStep_err (cls : Cls) (sg : Option String) (r : ReadOut) (h : r.err ≠ none) : postStep cls sg r = r := by
+  unfold postStep
+  cases cls with
+  | base => rfl
+  | pdffit =>
+    cases he : r.err with
+    | none => exact absurd he h
+    | some e => cases sg <;> rfl
+
+theorem postStep_dict (cls : Cls) (sg : Option String) (r : ReadOut) (kv : List (String × String))
+    (he : r.err = none) (h : getattr r.obj "pdffit" = some (.dict kv)) : (postStep cls sg r).err = none := by
+  unfold postStep
+  cases cls with
+  | base => exact he
+  | pdffit =>
+    cases sg with
+    | none => rw [he]; exact he
+    | some sg => rw [he, h]
 
 end DS.Load
